@@ -25,9 +25,10 @@ def rand_handler(rng, metrics):
     return {"table": tbl, "empty_list_std": rng.choice(VALS)}
 
 
-def scenario_arrays(rng, scen, input_type):
+def scenario_arrays(rng, scen, input_type, counts=None):
     shape = gen.rand_shape(rng, ndim=rng.choice([2, 2, 3]), lo=4, hi=7)
     z = np.zeros(shape, np.uint8)
+    k_p, k_r = counts or (rng.randint(1, 3), rng.randint(1, 3))
     def objs(n, lo_half):
         a = np.zeros(shape, np.uint8)
         for l in range(1, n + 1):
@@ -48,8 +49,12 @@ def scenario_arrays(rng, scen, input_type):
     if scen == "EMPTY_REF":
         p = objs(rng.randint(1, 3), True)
         return (p, z) if p.any() else None
+    if scen == "TP":
+        # the reference predicted exactly (thin objects included: single voxels, lines, one-slice boxes)
+        r = objs(k_r, True)
+        return (r.copy(), r) if r.any() else None
     # NORMAL: instances on both sides, none matched (disjoint halves; different labels for matched input)
-    p, r = objs(rng.randint(1, 3), True), objs(rng.randint(1, 3), False)
+    p, r = objs(k_p, True), objs(k_r, False)
     if not p.any() or not r.any():
         return None
     if input_type == "MATCHED":
@@ -102,6 +107,31 @@ def one_case(ctx, pred, ref, cfg, scen, src, evaluator=None, history=None):
     return s
 
 
+def tp_independent_of_handler(ctx, pred, ref, cfg, got, history):
+    """with a true positive the handler has no influence: the same scene under a fresh evaluator whose handler prescribes other
+    values everywhere gives the same result as `got` (obtained from a possibly long-lived evaluator)"""
+    other = {"table": [[m, {k: VALS[(VALS.index(v) + 1) % len(VALS)] for k, v in z.items()}] for m, z in cfg["handler"]["table"]],
+             "empty_list_std": cfg["handler"]["empty_list_std"]}
+    cfg2 = dict(cfg, handler=other)
+    r2 = E.run_impl(cfg2, pred, ref)
+    inp = {"shape": list(pred.shape), "pred": gen.arr_json(pred), "ref": gen.arr_json(ref), "cfg": cfg, "cfg2": cfg2, "scenario": "TP", "history": history}
+    ctx.case(inp, False)
+    ctx.count("tp>0.handler-swap")
+    b = r2["ungrouped"] if isinstance(r2, dict) else r2
+    if not isinstance(b, dict):
+        ctx.violation(f"evaluation raised {b} on a scene with true positives", inp, key={"kind": "raises"})
+        return
+    if b["tp"] == 0:
+        ctx.violation("C08 violated: a prediction identical to the reference is reported with tp = 0 (so that the edge-case handler decides the result)", inp,
+                      impl={"result": b}, key={"kind": "handler-influence"})
+        return
+    sq_keys = [n for m in cfg["eval_metrics"] for n in E.NAMES[m][:1]]      # with tp >= 1 the std may still be the empty-list value (one sample) -- not compared
+    bad = [k for k in got if k in b and (k in sq_keys or not k.startswith("sq")) and not isinstance(got[k], (str, list)) and not same_value(got[k], b[k])]
+    if bad:
+        ctx.violation(f"C08 violated: with tp > 0 the result depends on the edge-case handler or on what the evaluator saw before ({bad[0]}: {got[bad[0]]} vs {b[bad[0]]})", inp,
+                      impl={"shared": got, "fresh_other_handler": b}, key={"kind": "handler-influence"})
+
+
 def run_cases(ctx, n, tag):
     rng = ctx.rng
     for i in range(n):
@@ -125,21 +155,32 @@ def run_cases(ctx, n, tag):
             with impl.quiet():
                 ev = impl.mk_evaluator(cfg)
             hist = []
-            order = ["NO_INSTANCES", "EMPTY_PRED", "EMPTY_REF", "NORMAL"]
+            # zero-TP scenarios interleaved with scenes that do have true positives and the *same instance counts*
+            k = rng.randint(1, 2)
+            order = ["NO_INSTANCES", "EMPTY_PRED", "EMPTY_REF", "NORMAL", "TP", "NORMAL", "TP"]
             rng.shuffle(order)
             for sc in order:
-                a2 = scenario_arrays(rng, sc, it)
+                a2 = scenario_arrays(rng, sc, it, counts=(k, k))
                 if a2 is None:
                     continue
-                one_case(ctx, a2[0], a2[1], cfg, sc, f"{tag}{i}.seq", evaluator=ev,
-                         history=list(hist))
+                s_seq = one_case(ctx, a2[0], a2[1], cfg, sc, f"{tag}{i}.seq", evaluator=ev,
+                                 history=list(hist))
+                if sc == "TP" and isinstance(s_seq, dict):
+                    tp_independent_of_handler(ctx, a2[0], a2[1], cfg, s_seq, list(hist))
                 hist.append([sc, gen.arr_json(a2[0]), gen.arr_json(a2[1]), list(a2[0].shape)])
             ctx.count("shared_evaluator_sequences")
         if rng.random() < 0.25:
             # tp > 0: the handler has no influence
             pred, ref = gen.pair(rng, hi=6, max_obj=3, allow_empty=False)
-            cfg1 = E.mk_cfg("MATCHED", metrics, handler=hnd)
-            cfg2 = E.mk_cfg("MATCHED", metrics, handler=rand_handler(rng, metrics))
+            it2 = rng.choice(["MATCHED", "UNMATCHED", "SEMANTIC"])
+            if rng.random() < 0.5:
+                thin = scenario_arrays(rng, "TP", it2)
+                if thin is not None:
+                    pred, ref = thin
+                    ctx.count("tp>0.thin-identical-objects")
+            mt = E.naive("IOU", (1, 2)) if it2 != "MATCHED" else None
+            cfg1 = E.mk_cfg(it2, metrics, matcher=mt, handler=hnd)
+            cfg2 = E.mk_cfg(it2, metrics, matcher=mt, handler=rand_handler(rng, metrics))
             r1, r2 = E.run_impl(cfg1, pred, ref), E.run_impl(cfg2, pred, ref)
             if isinstance(r1, dict) and r1["ungrouped"]["tp"] > 0:
                 ctx.count("tp>0.handler-swap")
@@ -297,5 +338,7 @@ def replay(ctx, rec):
             ev = impl.mk_evaluator(i["cfg"])
         for sc, p, r, sh in i["history"]:
             E.run_impl(i["cfg"], np.array(p, dtype=np.uint8).reshape(sh), np.array(r, dtype=np.uint8).reshape(sh), evaluator=ev)
-    one_case(ctx, np.array(i["pred"], dtype=np.uint8).reshape(i["shape"]), np.array(i["ref"], dtype=np.uint8).reshape(i["shape"]),
-             i["cfg"], i["scenario"], "replay", evaluator=ev)
+    pred, ref = np.array(i["pred"], dtype=np.uint8).reshape(i["shape"]), np.array(i["ref"], dtype=np.uint8).reshape(i["shape"])
+    got = one_case(ctx, pred, ref, i["cfg"], i["scenario"], "replay", evaluator=ev)
+    if i["scenario"] == "TP" and isinstance(got, dict):
+        tp_independent_of_handler(ctx, pred, ref, i["cfg"], got, i.get("history") or [])
